@@ -15,6 +15,7 @@ fn setup(name: &str, depth: usize, rewinds: u32, wall: f64) -> (crate::universe:
     cfg.check_trees = true;
     // one tip symbol is enough here: tips do not touch the trees
     cfg.tips.truncate(1);
+    cfg.witness_subset = 1;
     (u, cfg)
 }
 
@@ -31,25 +32,34 @@ pub fn replay(kind: &str, case: &Value) -> Result<(), String> {
 
 pub fn run(args: &Args) -> i32 {
     let run = Run::new(args, "model_checking");
-    let plan: Vec<(&str, usize, u32, f64)> = match args.tier {
-        Tier::Quick => vec![("tiny", 12, 1, 36.0)],
-        Tier::Thorough => vec![("small", 12, 1, 300.0), ("mid", 10, 1, 500.0)],
+    // (universe, depth, rewinds, wall cap, segment-level alphabet first?) — see c01.rs `params`
+    let plan: Vec<(&str, usize, u32, f64, bool)> = match args.tier {
+        Tier::Quick => vec![("tiny", 8, 1, 22.0, true), ("tiny", 12, 1, 14.0, false)],
+        Tier::Thorough => vec![("tiny", 14, 2, 120.0, true), ("small", 12, 1, 300.0, false), ("mid", 8, 1, 400.0, false)],
     };
     run.set_rule(
         "explicit-state BFS over the real SQLite wallet (operations Scan, Tip, Rewind+switch branch, PutSubtreeRoots), states matched on a canonical \
-         logical dump + reference model; in every state every retained checkpoint x every pool x every mined wallet note is evaluated; a state is \
+         logical dump + reference model; in every state every retained checkpoint x every pool is evaluated for its root, and every mined wallet note for its Merkle path at the first two, the middle and the last two retained checkpoints at or above it (all of them when there are at most five); a state is \
          non-trivial when reached by at least one operation and distinct by that key",
     );
     run.assume("a root / Merkle path must be computable only when every block from the birthday up to the checkpoint is scanned; when the wallet does compute one it must equal the chain's");
     run.assume("trusted: incrementalmerkletree frontier arithmetic (ground-truth roots) and the pools' Merkle hash functions");
-    for (name, depth, rewinds, wall) in plan {
-        let (u, cfg) = setup(name, depth, rewinds, wall);
+    let (mut saw_witness, mut saw_grid) = (false, false);
+    for (name, depth, rewinds, wall, seg_level) in plan {
+        let (u, mut cfg) = setup(name, depth, rewinds, wall);
+        if seg_level {
+            cfg.free_scans = false;
+            cfg.segment_scans = true;
+        }
+        let label = if seg_level { format!("{name}-segments") } else { name.to_string() };
         let cx = Ctx { u: &u, cfg: &cfg, fresh: vec![] };
         let (stats, failures) = graph::search(&cx, &[&graph::check_trees]);
-        crate::c01::record(&run, name, &u, &cfg, &stats, failures);
-        run.require(stats.outcomes.keys().any(|k| k.starts_with("witness:ok")) || run.failure_count() > 0, "no witness verified");
-        run.require(stats.outcomes.contains_key("grid:present") || stats.outcomes.contains_key("grid:survived-pruning-depth") || run.failure_count() > 0, "no retained grid boundary observed");
+        crate::c01::record(&run, &label, &u, &cfg, &stats, failures);
+        saw_witness |= stats.outcomes.keys().any(|k| k.starts_with("witness:ok"));
+        saw_grid |= stats.outcomes.contains_key("grid:present") || stats.outcomes.contains_key("grid:survived-pruning-depth");
     }
+    run.require(saw_witness || run.failure_count() > 0, "no witness verified");
+    run.require(saw_grid || run.failure_count() > 0, "no retained grid boundary observed");
     run.sample(json!({"universe": "tiny", "ops": [Op::Roots, Op::Scan{from: universes::FIRST + 2, to: universes::FIRST + 4}, Op::Scan{from: universes::FIRST, to: universes::FIRST + 1}]}));
     run.finish(&replay)
 }
